@@ -25,6 +25,9 @@ pub enum OutKind {
     Existing(String),
     /// the output path is the input path
     SameAsInput,
+    /// an existing output file whose content is made from the expected result: `identical`, `crlf` (same lines, CRLF ends),
+    /// `half` (its first half), `extra-newline`
+    Derived(String),
     MissingDir,
     IsDirectory,
 }
@@ -78,6 +81,26 @@ impl Case for CliCase {
                 "unreadable".to_string()
             }
         };
+        // the library's own rendering for these options
+        let opt = OptRec {
+            attribute_prefix: if self.parser.as_deref() == Some("serde-xml-rs") { "".into() } else { "@".into() },
+            text_identifier: "$text".into(),
+            derive: self.derive.clone().unwrap_or_else(|| "Serialize, Deserialize".into()),
+            sort_by_name: self.sort.as_deref() == Some("name"),
+        };
+        let lib = match &self.input {
+            InputKind::Bytes(b) => match std::str::from_utf8(b) {
+                Ok(s) => {
+                    let mut reader = quick_xml::reader::Reader::from_str(s);
+                    match std::panic::catch_unwind(std::panic::AssertUnwindSafe(|| xml_schema_generator::into_struct(&mut reader).ok().map(|e| e.to_serde_struct(&opt.to_options())))) {
+                        Ok(r) => r,
+                        Err(_) => None,
+                    }
+                }
+                Err(_) => None,
+            },
+            _ => None,
+        };
         let (out_arg, out_tokens): (Option<String>, String) = match &self.output {
             OutKind::Stdout => (None, "stdout".into()),
             OutKind::NewFile => (Some(format!("{}/out.rs", dir)), "file 1 ~".into()),
@@ -90,6 +113,18 @@ impl Case for CliCase {
                 InputKind::Bytes(b) => (Some(input_path.clone()), format!("file 1 {}", enc(&String::from_utf8_lossy(b)))),
                 _ => (Some(format!("{}/out.rs", dir)), "file 1 ~".into()),
             },
+            OutKind::Derived(how) => {
+                let p = format!("{}/out.rs", dir);
+                let expected = format!("use serde::{{Deserialize, Serialize}};\n\n{}", lib.clone().unwrap_or_default());
+                let c = match how.as_str() {
+                    "crlf" => expected.replace('\n', "\r\n"),
+                    "half" => expected.chars().take(expected.chars().count() / 2).collect(),
+                    "extra-newline" => format!("{}\n", expected),
+                    _ => expected,
+                };
+                let _ = std::fs::write(&p, &c);
+                (Some(p), format!("file 1 {}", enc(&c)))
+            }
             OutKind::MissingDir => (Some(format!("{}/no/such/dir/out.rs", dir)), "file 0 ~".into()),
             OutKind::IsDirectory => {
                 let p = format!("{}/outdir", dir);
@@ -131,26 +166,6 @@ impl Case for CliCase {
             },
             None => None,
         };
-        // the library's own rendering for these options
-        let opt = OptRec {
-            attribute_prefix: if self.parser.as_deref() == Some("serde-xml-rs") { "".into() } else { "@".into() },
-            text_identifier: "$text".into(),
-            derive: self.derive.clone().unwrap_or_else(|| "Serialize, Deserialize".into()),
-            sort_by_name: self.sort.as_deref() == Some("name"),
-        };
-        let lib = match &self.input {
-            InputKind::Bytes(b) => match std::str::from_utf8(b) {
-                Ok(s) => {
-                    let mut reader = quick_xml::reader::Reader::from_str(s);
-                    match std::panic::catch_unwind(std::panic::AssertUnwindSafe(|| xml_schema_generator::into_struct(&mut reader).ok().map(|e| e.to_serde_struct(&opt.to_options())))) {
-                        Ok(r) => r,
-                        Err(_) => None,
-                    }
-                }
-                Err(_) => None,
-            },
-            _ => None,
-        };
         let _ = std::fs::remove_dir_all(&dir);
         let args_tokens = format!(
             "{} {} {}",
@@ -188,7 +203,7 @@ impl Case for CliCase {
                 metrics: vec![("exit_0".into(), (exit == 0) as u64), ("exit_1".into(), (exit == 1) as u64), ("exit_other".into(), (exit != 0 && exit != 1) as u64)],
                 tags: vec![
                     format!("input:{}", self.label),
-                    format!("output:{}", match self.output { OutKind::Stdout => "stdout", OutKind::NewFile => "new-file", OutKind::Existing(_) => "existing-file", OutKind::SameAsInput => "same-as-input", OutKind::MissingDir => "missing-directory", OutKind::IsDirectory => "is-a-directory" }),
+                    format!("output:{}", match self.output { OutKind::Stdout => "stdout", OutKind::NewFile => "new-file", OutKind::Existing(_) => "existing-file", OutKind::SameAsInput => "same-as-input", OutKind::Derived(_) => "existing-file-derived-from-result", OutKind::MissingDir => "missing-directory", OutKind::IsDirectory => "is-a-directory" }),
                     format!("parser:{}", self.parser.clone().unwrap_or_else(|| "(default)".into())),
                     format!("sort:{}", self.sort.clone().unwrap_or_else(|| "(default)".into())),
                     format!("derive:{}", match &self.derive { None => "(default)", Some(d) if d.is_empty() => "empty", _ => "custom" }),
@@ -231,7 +246,7 @@ impl Case for CliCase {
                 InputKind::Directory => json!("directory"),
             },
             "label": self.label, "parser": self.parser, "derive": self.derive, "sort": self.sort,
-            "output": match &self.output { OutKind::Stdout => json!("stdout"), OutKind::NewFile => json!("new-file"), OutKind::Existing(c) => json!({"existing": c}), OutKind::SameAsInput => json!("same-as-input"), OutKind::MissingDir => json!("missing-directory"), OutKind::IsDirectory => json!("is-a-directory") }})
+            "output": match &self.output { OutKind::Stdout => json!("stdout"), OutKind::NewFile => json!("new-file"), OutKind::Existing(c) => json!({"existing": c}), OutKind::SameAsInput => json!("same-as-input"), OutKind::Derived(h) => json!({"derived": h}), OutKind::MissingDir => json!("missing-directory"), OutKind::IsDirectory => json!("is-a-directory") }})
     }
 }
 
@@ -253,6 +268,7 @@ impl CliCase {
                 "missing-directory" => OutKind::MissingDir,
                 _ => OutKind::IsDirectory,
             },
+            o if o.get("derived").is_some() => OutKind::Derived(o["derived"].as_str()?.to_string()),
             o => OutKind::Existing(o["existing"].as_str()?.to_string()),
         };
         let s = |k: &str| v[k].as_str().map(|x| x.to_string());
